@@ -628,11 +628,14 @@ class VROOMAd(Adapter):
                 f"depth={part.get_depth()} layers={layers_str(part)} nodes={delta.dump(node_strs(part, vr_str))}")
 
 
+def sk_str(nd):
+    last = fbits(nd.rewards[-1]) if nd.rewards else "-"
+    return f"{nd.visited_times}:{int(bool(nd.opened))}:{len(nd.rewards)}:{last}:{fbits(nd.mean_reward)}"
+
+
 class StroquOOLAd(Adapter):
-    """monitor-only adapter: StroquOOL has no Lean model yet (its lines are not compared)"""
     name = "StroquOOL"
     time_sensitive = True
-    model = False
 
     def no_candidate(self, a):
         return not a.candidate
@@ -656,10 +659,14 @@ class StroquOOLAd(Adapter):
         return StroquOOL(n=p["n"], domain=box, partition=pcls)
 
     def init_line(self, p, kind, K, box, calls, algo=None):
-        return "# StroquOOL (no model)", None
+        return f"StroquOOL.init {kind_str(kind, K)} {box_str(box)} {p['n']} {algo.h_max} {algo.p_max}", "ok"
 
     def dump(self, a, delta):
-        return None
+        part = a.partition
+        cand = "[" + ",".join(vid(c) for c in a.candidate) + "]"
+        return (f"it={a.iteration} cd={a.curr_depth} cp={a.curr_p} nchosen={len(a.chosen)} ts={a.time_stamp} cand={cand} loc={a.curr_loc} "
+                f"curr={vid(a.curr_node)} eval={int(bool(a.eval))} max={vid(a.max_node)} end={int(bool(a.end))} "
+                f"depth={part.get_depth()} layers={layers_str(part)} nodes={delta.dump(node_strs(part, sk_str))}")
 
 
 ADAPTERS = {a.name: a for a in [HOOAd(), HCTAd(), VHCTAd(), SOOAd(), DOOAd(), StoSOOAd(), SequOOLAd(),
